@@ -29,6 +29,8 @@ struct Case
     uint16_t dev{0};
     uint8_t stream{0};
     uint16_t seq{0};
+    std::vector<uint32_t> priorLens;  // mode 4: lengths of the content the object held before (empty: a fresh object) ...
+    uint8_t priorRaw{0};              // ... 1: the object was constructed from the raw bytes of that content, 0: setData was called with it
     std::vector<uint32_t> varLens;  // mode 4: four string lengths + vendor length (capture-module) or stream-id count + vendor length (interface)
     void io(Ar& a)
     {
@@ -45,6 +47,11 @@ struct Case
         a.num("seq", seq);
         if (a.writing || a.peekName() == "varLens")
             a.numvec("varLens", varLens);
+        if (a.writing || a.peekName() == "priorLens")
+        {
+            a.numvec("priorLens", priorLens);
+            a.num("priorRaw", priorRaw);
+        }
     }
 };
 
@@ -279,6 +286,23 @@ static Verdict runVariablePart(const Case& c, Info& info)
         Bytes expect = wire::buildCm(f, str[0], str[1], str[2], str[3], vendor);
         // API -> bytes
         lib::CaptureModulePayload p;
+        if (!c.priorLens.empty())
+        {
+            // the object held other content before: no byte of it may show in the new layout (pad bytes, terminators are zero)
+            auto plen = [&](size_t i) { return i < c.priorLens.size() ? std::min<uint32_t>(c.priorLens[i], 700) : 0u; };
+            std::string ps[4];
+            for (int i = 0; i < 4; ++i)
+                ps[i] = std::string(plen(static_cast<size_t>(i)), static_cast<char>(0xC0 + i));
+            Bytes pv(plen(4), 0xEE);
+            if (c.priorRaw)
+            {
+                Bytes pb = wire::buildCm(wire::CmFields{}, ps[0], ps[1], ps[2], ps[3], pv);
+                p = lib::CaptureModulePayload(pb.data(), pb.size());
+            }
+            else
+                p.setData(ps[0], ps[1], ps[2], ps[3], pv);
+            info.tag("variable_part_written_over_earlier_content");
+        }
         p.setUptime(f.uptime);
         p.setGptpFlags(f.gptpFlags);
         p.setData(str[0], str[1], str[2], str[3], vendor);
@@ -310,6 +334,19 @@ static Verdict runVariablePart(const Case& c, Info& info)
         Bytes expect = wire::buildIf(f, ids, vendor);
         lib::InterfacePayload p;
         static const uint8_t dummy = 0;
+        if (!c.priorLens.empty())
+        {
+            auto plen = [&](size_t i) { return i < c.priorLens.size() ? std::min<uint32_t>(c.priorLens[i], 700) : 0u; };
+            Bytes pi(plen(0), 0xC7), pv(plen(1), 0xEE);
+            if (c.priorRaw)
+            {
+                Bytes pb = wire::buildIf(wire::IfFields{}, pi, pv);
+                p = lib::InterfacePayload(pb.data(), pb.size());
+            }
+            else
+                p.setData(pi.empty() ? &dummy : pi.data(), static_cast<uint16_t>(pi.size()), pv.empty() ? &dummy : pv.data(), static_cast<uint16_t>(pv.size()));
+            info.tag("variable_part_written_over_earlier_content");
+        }
         p.setData(ids.empty() ? &dummy : ids.data(), static_cast<uint16_t>(ids.size()), vendor.empty() ? &dummy : vendor.data(), static_cast<uint16_t>(vendor.size()));
         p.setInterfaceId(f.interfaceId);
         p.setInterfaceStatus(static_cast<lib::InterfacePayload::InterfaceStatus>(f.interfaceStatus));
@@ -356,6 +393,26 @@ static void enumerate(int, const std::function<bool(const Case&)>& emit)
                 if (!emit(c))
                     return;
             }
+    // variable part written over earlier content: every pair (earlier length, new length) in 0..9 for one field at a time,
+    // earlier content from setData and from raw bytes
+    for (uint8_t cls = 0; cls < 2; ++cls)
+        for (size_t pos = 0; pos < (cls == 0 ? 5u : 2u); ++pos)
+            for (uint32_t before = 0; before <= 9; ++before)
+                for (uint32_t now = 0; now <= 9; ++now)
+                    for (uint8_t raw = 0; raw < 2; ++raw)
+                    {
+                        Case c;
+                        c.mode = 4;
+                        c.cls = cls;
+                        c.seed = before * 11 + now * 3 + static_cast<uint32_t>(pos);
+                        c.varLens.assign(5, 2);
+                        c.varLens[pos] = now;
+                        c.priorLens.assign(5, 4);
+                        c.priorLens[pos] = before;
+                        c.priorRaw = raw;
+                        if (!emit(c))
+                            return;
+                    }
     for (int cls = 0; cls < kFieldClassCount; ++cls)
     {
         size_t nFields = 0;
@@ -409,6 +466,16 @@ static rc::Gen<Case> genCase(int tier)
                                                                        {4, range<uint32_t>(0, 20)},
                                                                        {3, range<uint32_t>(120, 260)},
                                                                        {2, range<uint32_t>(0, 700)}}));
+            // half of them on an object that held other content before (longer, shorter, other parities)
+            if (*range<int>(0, 1) == 0)
+            {
+                for (int i = 0; i < 5; ++i)
+                    c.priorLens.push_back(*rc::gen::weightedOneOf<uint32_t>({{1, rc::gen::just<uint32_t>(0)},
+                                                                             {5, range<uint32_t>(0, 20)},
+                                                                             {2, rc::gen::map(range<int32_t>(-2, 2), [&c, i](int32_t d) { return static_cast<uint32_t>(std::max<int32_t>(0, static_cast<int32_t>(c.varLens[static_cast<size_t>(i)]) + d)); })},
+                                                                             {2, range<uint32_t>(0, 300)}}));
+                c.priorRaw = *range<uint8_t>(0, 1);
+            }
             return c;
         }
         if (c.mode == 3)
